@@ -104,7 +104,7 @@ PROPS['C05'] = dict(
 )
 PROPS['C06'] = dict(
     title='pass-through',
-    units=['arms', 'pt', 'glue'],
+    units=['arms', 'pt', 'glue', 'loc'],
     shims=['A-glue', 'A-str'],
     design='DESIGN.md 3/C06',
     technique='contract-based deductive verification (Verus) of the directive-free emission arms (copy exactly the bytes of their own leaf, identity origin) plus once-only obligations',
@@ -215,9 +215,10 @@ PROPS['C19'] = dict(
 KANI = dict(module='vx.kanieng', tier='thorough')
 PROPS['C03']['engines'] = [KANI, dict(module='vx.boundeng')]
 PROPS['C18']['engines'] = [REPLAY]
-PROPS['C05']['engines'] = [dict(module='vx.boundeng')]
+PROPS['C05']['engines'] = [dict(module='vx.boundeng'), dict(module='gvc.engine', args=dict(analyses=('shadow',)))]
+PROPS['C11']['engines'] = [dict(module='gvc.engine', args=dict(analyses=('shadow',)))]
 PROPS['C04']['engines'] = [dict(module='gvc.engine', args=dict(analyses=('frame',))), REPLAY]
-PROPS['C06']['engines'] = [dict(module='gvc.engine', args=dict(analyses=('pptotal', 'faithful'))), dict(module='vx.boundeng'), REPLAY]
+PROPS['C06']['engines'] = [dict(module='gvc.engine', args=dict(analyses=('pptotal', 'faithful', 'shadow'))), dict(module='vx.boundeng'), REPLAY]
 
 NOT_APPLICABLE = {
     'C02': 'the oracle is the set of Annex A sentences and their production labels; a contract able to state it would restate the 1.3k-production grammar, and PEG ordered choice over it is not a per-function property (DESIGN.md 4)',
